@@ -429,9 +429,12 @@ def union_inputs(tier: str = "quick") -> List[V]:
             out.append(u)
     for a, b in itertools.permutations(ALPHABET, 2):
         add((a, b))
-    for tri in itertools.combinations(SMALL, 3):
+    for tri in itertools.combinations(SMALL if tier != "thorough" else ALPHABET[:20], 3):
         add(tri)
         add(tuple(reversed(tri)))
+    if tier == "thorough":
+        for quad in itertools.combinations(SMALL, 4):
+            add(quad)
     for big in LARGE:
         for r in range(len(big)):
             add(big[r:] + big[:r])  # every member gets to be first
